@@ -326,6 +326,61 @@ def r01_2(ctx: Ctx) -> None:
     ctx.check(ok, "R01.2", d, adv[0] if adv else d.node, "buffer-served branch advances the position by the amount returned", "the buffer-served branch does not advance the read position by max_length", construct="decoder pos advance")
 
 
+def r01_17(ctx: Ctx, rule: str = "R01.17") -> None:
+    """what the writer accepts the reader can decode: the reader hands runs of native coders to liblzma as one raw chain each, and such a
+    chain has to begin (in record order) with LZMA or LZMA2.  Folder.prepare_coderinfo, behind the construction of the compressor, calls a
+    check that raises UnsupportedCompressionMethodError unless every run does - and the runs are formed as the reader forms them: the
+    function that groups them for the writer and SevenZipDecompressor.__init__ name the same branch filters in their special case and test
+    the same compressor condition.  Without it 'Delta + BCJ + LZMA', two branch filters in front of another codec or a lone branch filter
+    are written without any error and can never be read back (34 of 585 chains of up to three filters)."""
+    pc = ctx.prog.func("archiveinfo", "Folder.prepare_coderinfo")
+    cfg = cfg_of(pc.node)
+    mk = [c for c in q.calls(pc) if attr_tail(c) == "SevenZipCompressor" or dotted(c.func) == "SevenZipCompressor"]
+    ctx.floor(rule, len(mk), 1, "SevenZipCompressor construction in prepare_coderinfo")
+    checks = []
+    for c in q.calls(pc):
+        cs = ctx.res.site_of(pc, c)
+        for t in (cs.targets if cs is not None else []):
+            body = list(walk(t.node))
+            for c2 in [x for x in body if isinstance(x, ast.Call)]:
+                cs2 = ctx.res.site_of(t, c2)
+                for t2 in (cs2.targets if cs2 is not None else []):
+                    body += list(walk(t2.node))
+            raises = any(isinstance(x, ast.Raise) and x.exc is not None and "UnsupportedCompressionMethodError" in norm(x.exc) for x in walk(t.node))
+            names = {x.id for x in body if isinstance(x, ast.Name)}
+            if raises and {"FILTER_LZMA", "FILTER_LZMA2"} <= names and t.module == "compressor" and t.name not in ("__init__",):
+                checks.append((c, t))
+    ok = any(all(cfg.dominates(q.node_for(pc, m), q.node_for(pc, c)) for m in mk) and cfg.every_path_to_exit_passes(cfg.entry, [q.node_for(pc, c)]) for c, t in checks)
+    ctx.check(ok, rule, pc, mk[0], "a filter chain the reader cannot decode is refused when the folder's compressor is built",
+              "Folder.prepare_coderinfo builds the compressor and never asks whether the reader can decode the chain: `filters=[Delta, X86, LZMA]`, `[X86, ARM, BZip2]` or `[X86]` "
+              "are written without any error, and extraction of the archive fails with LZMAError('Invalid or unsupported options')", construct="unreadable chain accepted")
+    # sibling agreement of the grouping
+    rd = ctx.prog.func("compressor", "SevenZipDecompressor.__init__")
+
+    def special(fn) -> Tuple[set, set]:
+        bcj, cond = set(), set()
+        for x in walk(fn.node):
+            if isinstance(x, ast.Compare) and isinstance(x.ops[0], ast.In) and isinstance(x.comparators[0], (ast.List, ast.Tuple)):
+                ids = {e.id for e in x.comparators[0].elts if isinstance(e, ast.Name) and e.id.startswith("FILTER_")}
+                if ids:
+                    bcj |= ids
+            if isinstance(x, ast.BoolOp) and isinstance(x.op, ast.And) and any(isinstance(v, ast.Call) and attr_tail(v) == "is_compressor_id" for v in x.values):
+                cond.add(" and ".join(sorted(norm(v) for v in x.values)))
+        return bcj, cond
+    for c, t in checks:
+        grp = [t] + [t2 for c2 in walk(t.node) if isinstance(c2, ast.Call) for t2 in ((ctx.res.site_of(t, c2).targets if ctx.res.site_of(t, c2) is not None else []))]
+        got_b, got_c = set(), set()
+        for g_ in grp:
+            b_, c_ = special(g_)
+            got_b |= b_
+            got_c |= c_
+        want_b, want_c = special(rd)
+        ctx.check(got_b == want_b and got_c == want_c, rule, t, t.node, "the writer's check groups the coders as the reader does",
+                  f"the check the writer applies names the branch filters {sorted(got_b)} / condition {sorted(got_c)} in its special case, SevenZipDecompressor.__init__ names "
+                  f"{sorted(want_b)} / {sorted(want_c)}: the two group the coders differently, so the writer accepts chains the reader cannot decode (or refuses readable ones)",
+                  construct="writer/reader grouping disagree")
+
+
 def wr_stmt(post: List[ast.stmt], call: ast.Call) -> ast.stmt:
     for s in post:
         if any(x is call for x in ast.walk(s)):
@@ -540,6 +595,7 @@ def r01_14(ctx: Ctx) -> None:
 
 
 def run(ctx: Ctx) -> None:
+    r01_17(ctx)
     from . import c07 as _c07o
     _c07o.r07_21(ctx, rule="R01.16")  # what the encoder is told, the header says
     from . import c04 as _c04s
